@@ -7,6 +7,7 @@ from .elgen import CHAN_POOL, Regs, aligned_segments, build_bp, const_rle, marke
 
 ID = "C06"
 ALLOWED_AXIOMS = []
+PROPS_FILES = ["C06", "Atomic"]
 RULE = ("elements of 1-5 channels (int and str ids) mixing blueprints (aligned multi-segment, waits, some off-grid "
         "with equal total counts) and raw arrays (with m1/m2), all channels at a common SR and point count or with "
         "exactly one deviant SR / one channel off by 1-5 samples; validateDurations, points, duration, SR, "
